@@ -3,19 +3,24 @@
 Scope
 -----
 vec     : every dtype (int, float, str, bool, date, datetime, complex, bytes, object and the nullable variant of
-          each) x every length 0..limit+3 x set_repr_rows limit in {None (=12), 0, 1, 2, 3, 5} x names
+          each) x every length 0..limit+3 x set_repr_rows limit in {None (=12), 0, 1, 2, 3, 4, 5} x names
           {None, 'v', 'a b', '', 0, 5};
 vec-sp  : special values (None, nan, inf, -inf, -0.0, 1e300, 10**30, multi-line / blank / very long strings, the
           string '...', nested list, user object) alone, and placed at the head / hidden middle / tail of a
           vector longer than the limit, for limits {None, 2};
 tab     : tables of width 0..12 x 0..14 rows x name patterns
           (plain, all None, 'a b' / '' / None mix, repeated, non-str 0, non-str 5) x dtype patterns (all int,
-          cycling through every dtype, nullable cycle, all int? with None in the last row) x limits {None, 0, 1, 2, 3, 5} with rows 0..limit+3.
+          cycling through every dtype, nullable cycle, all int? with None in the last row) x limits {None, 0, 1, 2, 3, 4, 5} with rows 0..limit+3.
           Column 0 always is an int marker column 7000+i so that body lines can be told from header lines
           without knowing the layout.
+tab-odd : tables of 11..14 columns (wider than the column limit) that are all int (or all int? ending in None) except ONE column
+          - at every elided position, all elided positions at once, and two visible controls - which differs in kind
+          (float, str, bool, date?, object / float?, str?) or only in nullability (int? among int, int among int?);
+          rows 1, 3, 14 at the default limit, 5 rows at limit 2, 2 rows at limit 0; plain and absent names.
+          The footer must not claim one homogeneous dtype.
 tab-sp  : two-column tables whose second column carries one special value (alone, after a plain value, at the
           head / hidden middle / tail of a column longer than the limit), limits {None, 2}.
-Both tiers run the same lattice (it takes seconds); thorough adds the limits 4, 6, 13, 20 for vectors.
+Both tiers run the same lattice (it takes seconds); thorough adds the limits 6, 13, 20 for vectors.
 
 Oracle (statement only): repr returns a str, `view(x)` is unchanged; the last line is the footer and states
 len(x) (vectors: `# N element vector <kind[?]>`) or rows×cols and the true dtype(s) with `?` when nullable
@@ -32,7 +37,7 @@ from datetime import date, datetime, timedelta
 from harness import *  # noqa
 from serif import set_repr_rows
 
-LIMITS = [None, 0, 1, 2, 3, 5]
+LIMITS = [None, 0, 1, 2, 3, 4, 5]
 VEC_NAMES = [None, 'v', 'a b', '', 0, 5]
 
 
@@ -311,7 +316,33 @@ def table_names(pattern, w):
     raise AssertionError(pattern)
 
 
+ODD_KINDS = {'int': ['float', 'int?', 'str', 'bool', 'date?', 'object'], 'int?': ['int', 'float?', 'str?']}
+
+
+def odd_positions(dpat, w):
+    """'odd:<base>:<token>:<pos>' -> the columns that differ from the base dtype (pos 'all' = every elided column)."""
+    pos = dpat.split(':')[3]
+    return list(range(5, w - 5)) if pos == 'all' else [int(pos)]
+
+
 def table_columns(dpat, w, n):
+    if dpat.startswith('odd:'):
+        # every column int (base 'int') or int? ending in None (base 'int?') except the odd one(s), which differ in kind
+        # or only in nullability; column 0 stays the marker column
+        _, base, token, _pos = dpat.split(':')
+        odd = odd_positions(dpat, w)
+        cols = []
+        for j in range(w):
+            if j in odd and j != 0:
+                kind, nullable = token.rstrip('?'), token.endswith('?')
+                vals = [elem(kind, i) for i in range(n)]
+                if nullable and n:
+                    vals[-1] = None
+                cols.append(vals)
+            else:
+                first = 7000 if j == 0 else j * 10
+                cols.append([first + i if (base == 'int' or i < n - 1) else None for i in range(n)])
+        return cols
     cols = []
     for j in range(w):
         if dpat == 'int?all':
@@ -484,7 +515,7 @@ def companion(x):
 def cases(tier, seed):
     q = tier == 'quick'
     # vectors: dtype x length x limit x name
-    for limit in (LIMITS if q else LIMITS + [4, 6, 13, 20]):
+    for limit in (LIMITS if q else LIMITS + [6, 13, 20]):
         L = limit_value(limit)
         for kind in KINDS:
             for nullable in (False, True):
@@ -539,6 +570,17 @@ def cases(tier, seed):
                         continue
                     for dpat in DTYPE_PATTERNS:
                         yield {'op': 'tab', 'w': w, 'n': n, 'names': npat, 'dtypes': dpat, 'limit': limit}
+    # tables wider than the column limit whose odd column (other kind / other nullability) is elided, with visible controls
+    for w in (11, 12, 13, 14):
+        hidden = list(range(5, w - 5))
+        for base, tokens in ODD_KINDS.items():
+            for token in tokens:
+                for pos in hidden + ['all', 2, w - 1]:
+                    for npat in ('plain', 'none'):
+                        for limit, n in ((None, 1), (None, 3), (None, 14), (2, 5), (0, 2)):
+                            if base == 'int?' and n == 1 and token.endswith('?'):
+                                continue                                       # a one-row column cannot be both <kind> and None
+                            yield {'op': 'tab', 'w': w, 'n': n, 'names': npat, 'dtypes': f'odd:{base}:{token}:{pos}', 'limit': limit}
 
 
 def evaluate(case):
@@ -559,15 +601,21 @@ def nontrivial(case):
         return ('tab-sp', tuple(sorted({type(x).__name__ for x in vals})), len(vals) > L, case['limit'])
     n = case['n']
     rel = 'empty' if not n else ('below' if n < L else 'equal' if n == L else 'above')
+    if case['dtypes'].startswith('odd:'):
+        _, base, token, pos = case['dtypes'].split(':')
+        where = 'all-hidden' if pos == 'all' else ('hidden' if 5 <= int(pos) < case['w'] - 5 else 'visible')
+        return ('tab-odd', case['w'], base, token, where, rel, case['limit'], case['names'])
     return ('tab', case['w'] > 10, case['w'] == 0, rel, case['limit'], case['names'], case['dtypes'])
 
 
 if __name__ == '__main__':
     main('C20', cases, evaluate,
-         rule='every dtype x nullable x length 0..limit+3 x limit in {12(default),0,1,2,3,5} x 6 names for vectors; 18 special values '
+         rule='every dtype x nullable x length 0..limit+3 x limit in {12(default),0,1,2,3,4,5} x 6 names for vectors; 18 special values '
               'alone / paired / inside object vectors / at head, hidden middle and tail of a vector longer than the limit; tables of '
-              'width 0..12 x rows 0..14 x 6 name patterns x 4 dtype patterns x 6 limits; two-column tables with a special cell. '
+              'width 0..12 x rows 0..14 x 6 name patterns x 4 dtype patterns x 7 limits; tables of width 11..14 whose only odd-typed / '
+              'odd-nullability column sits at each elided position (and visible controls); two-column tables with a special cell. '
               'repr is parsed for footer, header names, dtype tokens and body lines; distinct = (types, length vs limit, limit, names)',
-         bound=lambda tier: {'limits': [12, 0, 1, 2, 3, 5], 'max_len': 15, 'max_width': 12, 'max_rows': 14, 'kinds': len(KINDS),
-                             'specials': len(SPECIALS), 'extra_vector_limits': [] if tier == 'quick' else [4, 6, 13, 20]},
+         bound=lambda tier: {'limits': [12, 0, 1, 2, 3, 4, 5], 'max_len': 15, 'max_width': 12, 'max_rows': 14, 'kinds': len(KINDS),
+                             'odd_column_widths': [11, 12, 13, 14],
+                             'specials': len(SPECIALS), 'extra_vector_limits': [] if tier == 'quick' else [6, 13, 20]},
          nontrivial=nontrivial)
